@@ -55,7 +55,7 @@ static const char *KNAME[NKINDS] = { "SET_RFC", "SET_TLD", "SET_ALLOW", "SETUP",
 
 struct Op {
     Kind k = SET_RFC; int o = 0; long long v = 0; string a;
-    bool f_on = false; int f_code = 0; int f_buf = 0; int sf = 0;
+    bool f_on = false; int f_code = 0; int f_buf = 0; int f_at = 1; int sf = 0;
 };
 struct Plan {
     string prop = "C13", cfg = "nofault";
@@ -70,7 +70,7 @@ static sj::Value op_to_json(const Op &op) {
     j.set("k", KNAME[op.k]); j.set("o", op.o);
     if (op.k == SET_RFC || op.k == SET_TLD || op.k == SET_ALLOW || op.k == LOW_6531 || op.k == LOW_UTF8DOM) j.set("v", op.v);
     if (op.k == IS_EMAIL || op.k == LOW_6531 || op.k == LOW_UTF8DOM) j.set("a", op.a);
-    if (op.f_on) { sj::Value f = sj::Value::object(); f.set("code", op.f_code); f.set("buf", op.f_buf); j.set("f", f); }
+    if (op.f_on) { sj::Value f = sj::Value::object(); f.set("code", op.f_code); f.set("buf", op.f_buf); if (op.f_at != 1) f.set("at", op.f_at); j.set("f", f); }
     if (op.sf) j.set("sf", op.sf);
     return j;
 }
@@ -98,7 +98,7 @@ static Plan plan_from_json(const sj::Value &j) {
         if (ki < 0) continue;
         op.k = (Kind)ki; op.o = (int)e.geti("o"); op.v = e.geti("v"); op.a = e.gets("a");
         const sj::Value *f = e.get("f");
-        if (f && f->kind == sj::Value::Obj) { op.f_on = true; op.f_code = (int)f->geti("code"); op.f_buf = (int)f->geti("buf"); }
+        if (f && f->kind == sj::Value::Obj) { op.f_on = true; op.f_code = (int)f->geti("code"); op.f_buf = (int)f->geti("buf"); op.f_at = (int)f->geti("at", 1); }
         op.sf = (int)e.geti("sf");
         if (op.o < 0) op.o = 0;
         op.o %= p.nobj;                 // ops are interpreted modulo what exists
@@ -288,6 +288,7 @@ static vector<string> draw_pool(sim_rng &r, const string &prop, int n) {
 
 static void draw_fault(sim_rng &r, Op &op) {
     op.f_on = true; op.f_code = IDN2_CODES[sim_below(&r, N_CODES)]; op.f_buf = (int)sim_below(&r, 3);
+    { unsigned c = (unsigned)sim_below(&r, 10); op.f_at = c < 7 ? 1 : c < 9 ? 2 : 3; }   // which IDN-library call of the operation fails
 }
 
 static long long draw_allow(sim_rng &r) {
@@ -363,7 +364,7 @@ static Plan gen_history(const string &prop, const string &cfg, uint64_t seed, lo
         case SET_TLD: op.v = (long long)sim_below(&w, 2); break;
         case SET_ALLOW: op.v = draw_allow(w); break;
         case SETUP: if (sfrate && sim_below(&f, 100) < sfrate) op.sf = 1 + (int)sim_below(&f, 2); break;
-        case IS_EMAIL: op.a = pick(w, pool); if (frate) { const Op &w0 = world[op.a]; op.f_on = w0.f_on; op.f_code = w0.f_code; op.f_buf = w0.f_buf; } break;
+        case IS_EMAIL: op.a = pick(w, pool); if (frate) { const Op &w0 = world[op.a]; op.f_on = w0.f_on; op.f_code = w0.f_code; op.f_buf = w0.f_buf; op.f_at = w0.f_at; } break;
         default: break;
         }
         p.ops.push_back(op);
@@ -408,6 +409,7 @@ static Plan gen_c19(const string &cfg, uint64_t seed, long long index) {
         // index -> (base sequence, validation position, code, buffer mode), mixed radix
         long long i = index;
         int buf = (int)(i % 3); i /= 3;
+        int at = 1 + (int)(i % 2); i /= 2;          // first or second IDN-library call of the validation
         int code = IDN2_CODES[i % N_CODES]; i /= N_CODES;
         int pos = (int)(i % 50); i /= 50;
         long long base = i;
@@ -419,7 +421,7 @@ static Plan gen_c19(const string &cfg, uint64_t seed, long long index) {
         // attach the fault to the (pos mod nval)-th validation
         int want = pos % nval, seen = 0;
         for (auto &op : p.ops) if (op.k == IS_EMAIL || op.k == LOW_6531 || op.k == LOW_UTF8DOM) {
-            if (seen == want) { op.f_on = true; op.f_code = code; op.f_buf = buf; break; }
+            if (seen == want) { op.f_on = true; op.f_code = code; op.f_buf = buf; op.f_at = at; break; }
             seen++;
         }
         return p;
@@ -554,8 +556,9 @@ struct ObjModel {
 };
 
 struct RefKey {
-    int mode, tld; long long allow; string a; bool f_on; int code, buf;
+    int mode, tld; long long allow; string a; bool f_on; int code, buf; int at = 1;
     bool operator<(const RefKey &o) const {
+        if (at != o.at) return at < o.at;
         if (mode != o.mode) return mode < o.mode;
         if (tld != o.tld) return tld < o.tld;
         if (allow != o.allow) return allow < o.allow;
@@ -644,7 +647,7 @@ struct Exec {
         int s = shim_setup(e);
         if (s != 0) { g_sim_tag = SIM_TAG_NONE; viol("harness:reference-setup-failed", "eav_setup on a fresh object failed for a valid mode"); free(e); return o; }
         shim_set_tld_check(e, k.tld); shim_set_allow(e, (int)k.allow);
-        sim_conv_begin(k.f_on, k.code, k.buf);
+        sim_conv_begin(k.f_on, k.code, k.buf); sim_conv_at(k.at);
         g_sim_tag = SIM_TAG_NONE;
         const char *ap = caller_copy(0, k.a);     // reference runs hold the address like the history does
         g_sim_tag = SIM_TAG_REF;
@@ -754,10 +757,10 @@ struct Exec {
                     }
                     break;
                 case IS_EMAIL:
-                    if (m.confirmed >= 0) keys.push_back(RefKey{ m.confirmed, m.tld, m.allow, op.a, op.f_on, op.f_code, op.f_buf });
+                    if (m.confirmed >= 0) keys.push_back(RefKey{ m.confirmed, m.tld, m.allow, op.a, op.f_on, op.f_code, op.f_buf, op.f_at });
                     break;
                 case LOW_6531:
-                    if (m.confirmed == 3) keys.push_back(RefKey{ 3, op.v ? 1 : 0, -1, op.a, op.f_on, op.f_code, op.f_buf });
+                    if (m.confirmed == 3) keys.push_back(RefKey{ 3, op.v ? 1 : 0, -1, op.a, op.f_on, op.f_code, op.f_buf, op.f_at });
                     break;
                 case LOW_UTF8DOM:
                     if (m.confirmed == 3 && !op.f_on) keys.push_back(RefKey{ 3, op.v ? 1 : 0, -1, "a@" + op.a, false, 0, 0 });
@@ -878,9 +881,9 @@ struct Exec {
         } break;
         case IS_EMAIL: {
             if (m.confirmed < 0) { ST.is_email_skipped++; rec(pre + " skipped (no confirmed mode)", pre + " skipped"); break; }
-            RefKey k{ m.confirmed, m.tld, m.allow, op.a, op.f_on, op.f_code, op.f_buf };
+            RefKey k{ m.confirmed, m.tld, m.allow, op.a, op.f_on, op.f_code, op.f_buf, op.f_at };
             if (op.f_on) ST.fault_attached++;
-            sim_conv_begin(op.f_on, op.f_code, op.f_buf);
+            sim_conv_begin(op.f_on, op.f_code, op.f_buf); sim_conv_at(op.f_at);
             const char *ap = caller_copy(op.o, op.a);
             std::set<void *> prev_blocks = result_blocks(op.o);
             g_sim_tag = op.o;
@@ -948,7 +951,7 @@ struct Exec {
         case LOW_6531: {
             if (m.confirmed != 3) { rec(pre + " skipped", pre + " skipped"); break; }
             if (op.f_on) ST.fault_attached++;
-            sim_conv_begin(op.f_on, op.f_code, op.f_buf);
+            sim_conv_begin(op.f_on, op.f_code, op.f_buf); sim_conv_at(op.f_at);
             g_sim_tag = 101;
             void *rp = shim_low_6531(e, op.a.c_str(), op.a.size(), op.v ? 1 : 0);
             shim_res r; shim_res_from_ptr(rp, &r);
@@ -958,7 +961,7 @@ struct Exec {
             snprintf(b, sizeof b, " tld=%d%s res=%d v4=%d v6=%d dom=%d rc=%d idn_rc=%ld", (int)(op.v ? 1 : 0), o.conv_fired ? " FAULT" : "", o.present, o.v4, o.v6, o.dom, o.rc, o.idn_rc);
             rec(pre + b + " a=<" + op.a + ">", pre + b);
             if (o.conv_fired) check_containment("is_6531_email", op, -1, o);
-            RefKey k{ 3, op.v ? 1 : 0, -1, op.a, op.f_on, op.f_code, op.f_buf };
+            RefKey k{ 3, op.v ? 1 : 0, -1, op.a, op.f_on, op.f_code, op.f_buf, op.f_at };
             auto it = ref_pre.find(k);
             if (it != ref_pre.end()) {
                 const Outcome &f = it->second; ST.outcome_cmp++; nontrivial_cmp = true;
@@ -979,7 +982,7 @@ struct Exec {
         case LOW_UTF8DOM: {
             if (m.confirmed != 3) { rec(pre + " skipped", pre + " skipped"); break; }
             if (op.f_on) ST.fault_attached++;
-            sim_conv_begin(op.f_on, op.f_code, op.f_buf);
+            sim_conv_begin(op.f_on, op.f_code, op.f_buf); sim_conv_at(op.f_at);
             g_sim_tag = 101;
             long idnrc = 0;
             int rc = shim_low_utf8_domain(e, &idnrc, op.a.c_str(), op.a.c_str() + op.a.size(), op.v ? 1 : 0);
